@@ -47,8 +47,38 @@ def all_cuts(ctx):
     return out
 
 
+def long_cases(ctx):
+    """single-line ladder: files of 10^2 .. 3.2 * 10^6 characters on one line (without any newline, with a final one, as
+    second line), every second rung in the quick tier; the shapes whose token count grows with the size up to 10^5 / 10^6"""
+    if getattr(ctx, "_c03long", None) is None:
+        light = scan_streams.rungs(100, 10 ** 4, True) + ctx.pick([10 ** 5, 10 ** 6, 3162278], scan_streams.rungs(31623, 3162278))
+        heavy = scan_streams.rungs(100, 10 ** 4, True) + ctx.pick([10 ** 5], scan_streams.rungs(31623, 10 ** 6))
+        ctx._c03long = scan_streams.long_lines(ctx, light, heavy, per_rung=ctx.pick(2, 7), salt="c03long", full_upto=100)
+    return ctx._c03long
+
+
+def _long_work(desc):
+    return sr.real_scan(desc["language"], scan_streams.long_text(desc))[:200]
+
+
+def explain(lang, code):
+    """the exception behind an `err n` reply, in words (for the replay file)"""
+    from codelimit.common.lexer_utils import lex
+    from codelimit.common.Scanner import scan_file
+    from codelimit.languages import Languages
+    try:
+        scan_file(lex(sr.lexer_for(lang), code, False), Languages.by_name[lang])
+        return "no exception"
+    except BaseException as e:  # noqa
+        import traceback
+        tb = traceback.extract_tb(e.__traceback__)[-1]
+        return "%s: %s (%s:%d %s)" % (type(e).__name__, str(e)[:120], os.path.basename(tb.filename), tb.lineno, tb.name)
+
+
 def cases(ctx):
     out = list(REGRESS) + scan_streams.soups(ctx, ctx.pick(2000, 50000), "c03soup") + all_cuts(ctx)
+    # configuration variants of a share of the malformed stream: byte order mark, no newline at all, Unicode separators
+    out += scan_streams.decorate(ctx, out, ctx.pick(0.03, 0.06), "c03decor")
     rnd = ctx.rng("deep")
     for lang in sr.LANGS:
         d = ctx.pick(400, 1200)     # functions nested deeper than any interpreter recursion budget a per-level recursion could afford
@@ -107,7 +137,8 @@ def cli_runs(ctx):
         py = sys.executable
         plan = [(root, ["scan", "."]), (other, ["scan", root]), (root, ["check", "."]), (root, ["check", "src"]),
                 (root, ["check", os.path.join(root, "src")]), (other, ["check", root]), (other, ["check", os.path.join(root, "src", "pkg")]),
-                (os.path.join(root, "src"), ["check", "../src/pkg"]), (root, ["check", "--quiet", "src"])]
+                (os.path.join(root, "src"), ["check", "../src/pkg"]), (root, ["check", "--quiet", "src"]),
+                (root, ["check", "--verbose", "src"])]      # configuration variant: Configuration.verbose (every file name goes through logging)
         sample = rnd.sample(files, min(len(files), ctx.pick(12, 120))) + rnd.sample(longs, ctx.pick(4, 14))
         for rel in rnd.sample(longs, 3):     # every way of naming a file with listed functions
             plan += [(root, ["check", rel]), (other, ["check", os.path.join(root, rel)]),
@@ -172,14 +203,81 @@ def cli_runs(ctx):
     return runs, fails
 
 
+def cli_long_runs(ctx):
+    """`codelimit scan .`, `check .` and `check <file>` on a tree holding one single-line file per upper rung of the ladder"""
+    descs = [d for (_, _, d) in long_cases(ctx) if d["chars"] >= 10 ** 4 and d["shape"] in ("literal", "comment", "fn")]
+    rnd = ctx.rng("clilong")
+    by_size = {}
+    for d in descs:
+        by_size.setdefault(d["chars"], []).append(d)
+    chosen = [rnd.choice(v) for (_, v) in sorted(by_size.items())]
+    chosen += [dict(rnd.choice(v), bom=True) for (k, v) in sorted(by_size.items()) if k == 10 ** 5]
+    root = tempfile.mkdtemp(prefix="c03long_")
+    runs, fails = [], []
+    try:
+        files = {}
+        for i, d in enumerate(chosen):
+            rel = "long%d_%d.%s" % (i, d["chars"], sr.EXT[d["language"]])
+            write_bytes(os.path.join(root, rel), scan_streams.long_text(d).encode("utf-8"))
+            files[rel] = d
+        env = dict(os.environ, PYTHONPATH=common.REPO, COLUMNS="200")
+        plan = [["check", rel] for rel in files] + [["check", "."], ["scan", "."]]
+
+        def one(args):
+            t0 = time.time()
+            try:
+                p = subprocess.run([sys.executable, "-m", "codelimit"] + args, cwd=root, env=env, capture_output=True, text=True, timeout=300)
+                return args, p.returncode, (p.stdout + p.stderr)[-1200:], time.time() - t0
+            except subprocess.TimeoutExpired:
+                return args, "timeout", "", 300.0
+        from concurrent.futures import ThreadPoolExecutor
+        with ThreadPoolExecutor(max_workers=8) as ex:
+            results = list(ex.map(one, plan))
+        results.append(one(["scan", "--verbose", "."]))     # second scan of the same tree (reads the report just written), verbose
+        for (args, rc, out, dt) in results:
+            runs.append({"cwd": "long", "args": args, "rc": rc, "s": round(dt, 1)})
+            ok = rc in (0, 1) and "Traceback" not in out
+            if args[0] == "scan" and ok and (rc != 0 or not os.path.exists(os.path.join(root, ".codelimit_cache", "codelimit.json"))):
+                ok = False; out += " [exit status %s / no report written]" % rc
+            if not ok:
+                named = {rel: d for rel, d in files.items() if rel in args} or files
+                fails.append({"input": {"stream": "cli-long", "args": args, "files": named},
+                              "observed": "exit %s: %s" % (rc, out[-600:]), "required": "completes with exit status 0 or 1 (scan: 0 and a report), no traceback"})
+    finally:
+        shutil.rmtree(root, ignore_errors=True)
+    fails.sort(key=lambda f: (len(f["input"]["files"]), max(d["chars"] for d in f["input"]["files"].values())))
+    return runs, fails[:3]
+
+
 def timed_real(cs):
     """in-process analysis with a wall-clock guard per input (hang detection)"""
     real = sr.real_scan_many(cs)
     return real
 
 
+def long_failures(ctx, dist=None, started=None):
+    jobs = sorted((d for (_, _, d) in long_cases(ctx)), key=lambda d: -d["chars"])
+    fails = []
+    for d, r in zip(jobs, (started or scan_streams.Heavy(_long_work, jobs)).results()):
+        if dist is not None:
+            dist["long_lines"][str(d["chars"])] = dist["long_lines"].get(str(d["chars"]), 0) + 1
+        if r.startswith("err"):
+            fails.append({"input": dict(d), "observed": r + " = " + explain(d["language"], scan_streams.long_text(d)), "required": "a (possibly empty) list of measurements"})
+    fails.sort(key=lambda f: f["input"]["chars"])
+    for f in fails[:2]:
+        # smallest size of this shape that still fails (bisection below the failing rung)
+        d = f["input"]
+        small = scan_streams.bisect_size(lambda k, d=d: _long_work(dict(d, chars=k)).startswith("err"), 0, d["chars"])
+        r = _long_work(dict(d, chars=small))
+        if r.startswith("err"):
+            f.update({"input": dict(d, chars=small, found_at_chars=d["chars"]), "observed": r + " = " + explain(d["language"], scan_streams.long_text(dict(d, chars=small)))})
+    fails.sort(key=lambda f: f["input"]["chars"])
+    return len(jobs), fails[:6]
+
+
 def _correspond_main(ctx):
     cs = cases(ctx)
+    heavy = scan_streams.Heavy(_long_work, sorted((d for (_, _, d) in long_cases(ctx)), key=lambda d: -d["chars"]))
     t0 = time.time()
     real = timed_real(cs)
     dt = time.time() - t0
@@ -200,11 +298,19 @@ def _correspond_main(ctx):
             nontrivial.add((lang, code))
             if not r.startswith("ok 0 "):
                 dist["with_functions"] += 1
+    dist["long_lines"] = {}
+    nlong, lfails = long_failures(ctx, dist, heavy)
+    fails = lfails + fails
     runs, cfails = cli_runs(ctx)
     fails += cfails
+    lruns, lcfails = cli_long_runs(ctx)
+    runs += lruns
+    fails += lcfails
+    dist["byte_order_mark"] = sum(1 for (_, c) in cs if c.startswith(scan_streams.BOM))
+    dist["without_any_newline"] = sum(1 for (_, c) in cs if "\n" not in c)
     return {
-        "evaluations": len(cs) + len(runs), "distinct_nontrivial": len(nontrivial) + len(runs),
-        "rule": "malformed stream (every kind of prefix/suffix/edit of canonical programs and corpus files, token soups per language, tiny inputs, deep nesting up to the stated depth) analysed in-process, compared with the model; plus %d subprocess runs of `python -m codelimit scan|check` over a tree of such files incl. non-UTF-8 and empty files, named relatively, absolutely, via directories and from other working directories; non-trivial = inputs analysed to completion" % len(runs),
+        "evaluations": len(cs) + len(runs) + nlong, "distinct_nontrivial": len(nontrivial) + len(runs) + nlong,
+        "rule": "single-line ladder: files of 10^2 .. 3.2*10^6 characters on ONE line (string literal, block comment followed by a function, short statements, one-line function; without any newline / with a final newline / as second line; a quarter behind a byte order mark) analysed in-process and, for a sample, through `codelimit scan|check` subprocesses; a share of the malformed stream behind a byte order mark / on one line / with a Unicode separator; malformed stream (every kind of prefix/suffix/edit of canonical programs and corpus files, token soups per language, tiny inputs, deep nesting up to the stated depth) analysed in-process, compared with the model; plus %d subprocess runs of `python -m codelimit scan|check` over a tree of such files incl. non-UTF-8 and empty files, named relatively, absolutely, via directories and from other working directories; non-trivial = inputs analysed to completion" % len(runs),
         "samples": [{"language": l, "code": c[:100], "impl": r[:80]} for (l, c), r in list(zip(cs, real))[7:10]] + runs[:4],
         "exhaustive": False, "distribution": dist,
         "disagreements": dis[:50], "oracle_failures": fails[:50],
@@ -212,13 +318,13 @@ def _correspond_main(ctx):
 
 
 def search(ctx, hints):
-    cs = [(h["language"], h["code"]) for h in hints or [] if h and h.get("stream") == "text"] + list(REGRESS) + scan_streams.soups(ctx, 8000, "c03search")
+    cs = [(h["language"], h["code"]) for h in hints or [] if h and h.get("stream") == "text" and "code" in h] + list(REGRESS) + scan_streams.soups(ctx, 8000, "c03search")
     real = sr.real_scan_many(cs)
     fails = [{"input": {"stream": "text", "language": l, "code": c}, "observed": r, "required": "a (possibly empty) list of measurements"}
              for (l, c), r in zip(cs, real) if r.startswith("err")]
     fails.sort(key=lambda f: len(f["input"]["code"]))
     _, cf = cli_runs(ctx)
-    return fails[:8] + cf[:4]
+    return long_failures(ctx)[1][:3] + fails[:8] + cf[:4] + cli_long_runs(ctx)[1][:2]
 
 
 def replay(payload):
@@ -237,8 +343,19 @@ def replay(payload):
             return p.returncode in (0, 1) and "Traceback" not in p.stdout + p.stderr
         finally:
             shutil.rmtree(root, ignore_errors=True); shutil.rmtree(other, ignore_errors=True)
-    r = sr.real_scan(inp["language"], inp["code"])
-    print("%s %r -> %s" % (inp["language"], inp["code"][:80], r[:100]))
+    if inp.get("stream") == "cli-long":
+        root = tempfile.mkdtemp(prefix="c03r_")
+        try:
+            for rel, d in inp["files"].items():
+                write_bytes(os.path.join(root, rel), scan_streams.long_text(d).encode("utf-8"))
+            p = subprocess.run([sys.executable, "-m", "codelimit"] + inp["args"], cwd=root, env=dict(os.environ, PYTHONPATH=common.REPO), capture_output=True, text=True, timeout=300)
+            print("exit", p.returncode, (p.stdout + p.stderr)[-400:])
+            return p.returncode in (0, 1) and "Traceback" not in p.stdout + p.stderr
+        finally:
+            shutil.rmtree(root, ignore_errors=True)
+    code = scan_streams.long_text(inp) if inp.get("stream") == "long-line" else inp["code"]
+    r = sr.real_scan(inp["language"], code)
+    print("%s %r%s -> %s" % (inp["language"], code[:80], " ... (%d characters)" % len(code) if len(code) > 80 else "", r[:100]))
     return not r.startswith("err")
 
 
